@@ -13,6 +13,18 @@ Line protocol (stateful; mirrors the primitive ops of harness/c/c26_state.c).  V
   extract <srcsig> <dstsig> v v ...    -> vec ... | error:<kind>
   copy <ksrc> <kdst> <sig>             -> ok | error:<kind>
   tableid                              -> fingerprint of the generated table compiled into this driver
+Keyframes (the generated `Gen.keyTable`; the model's key_* arrays are unknown — compiled by the real
+model compiler — until written by `keyfill`, ops on an unknown array are rejected):
+  keyfill <base> <array> ...           -> ok          (direct write of whole key_* arrays)
+  keyput <idx> <array> v v ...         -> ok          (direct write of one keyframe's row)
+  keydump <array> ...                  -> name:v v v|name:...
+  setkey <k> <idx>                     -> ok | error:keyRange | error:keyNeg        (mj_setKeyframe)
+  loadkey <k> <idx> <base> <field> ... ; <field> ...
+        mj_resetDataKeyframe(m, D[k], idx); prints `reset` when the index is outside [0,nkey) (the
+        implementation side: when D[k] is indistinguishable from a fresh mjData), else the listed
+        fields (which must be exactly the loaded ones) + `;rest=1` (everything else as after a reset);
+        then D[k] is re-filled like `fill <k> <base> <second list>` (must cover every field), because
+        the values `_resetData` leaves are not part of this model.
 -/
 open MjProof MjProof.Driver MjProof.State MjProof.Gen
 
@@ -21,6 +33,7 @@ abbrev D := Data StateField Int
 structure St where
   sz : Option (StateSize → Nat)
   ds : Array D
+  ks : KeyArray → Option (List Int) := fun _ => none
 
 def nslot : Nat := 4
 
@@ -35,6 +48,24 @@ def errStr : Err → String
   | .oob => "error:oob"
 
 def fieldOf (n : String) : Option StateField := StateField.all.find? (fun f => f.name == n)
+def arrayOf (n : String) : Option KeyArray := KeyArray.all.find? (fun f => f.name == n)
+
+def kerrStr : KErr → String
+  | .keyRange => "error:keyRange"
+  | .keyNeg => "error:keyNeg"
+  | .oob => "error:oob"
+
+/-- entries of one keyframe in a `key_*` array: the count of the copy statement that moves it -/
+def rowSize (sz : StateSize → Nat) (a : KeyArray) : Option Nat :=
+  ((keyTable.load ++ keyTable.store).find? (fun r => r.key == a)).map (fun r => r.size sz)
+
+/-- all arrays that the keyframe copies touch are known -/
+def knownKeys (ks : KeyArray → Option (List Int)) : Option (KeyData KeyArray Int) :=
+  if (keyTable.load ++ keyTable.store).all (fun r => (ks r.key).isSome) then
+    some fun a => match ks a with | some v => v | none => []   -- `none` only for arrays no copy touches
+  else none
+
+def sameSet (a b : List StateField) : Bool := a.all (b.contains ·) && b.all (a.contains ·)
 
 def slot? (s : String) : Option Nat :=
   match s.toNat? with
@@ -77,7 +108,7 @@ def step (st : St) (line : String) : St × String :=
       match parseSizes szs with
       | some sz =>
         let zero : D := fun f => List.replicate (stateTable.alloc f sz) 0
-        ({ sz := some sz, ds := Array.replicate nslot zero }, "ok")
+        ({ sz := some sz, ds := Array.replicate nslot zero, ks := fun _ => none }, "ok")
       | none => (st, "bad-op")
     | _ => (st, "bad-op")
   | op :: args =>
@@ -132,6 +163,58 @@ def step (st : St) (line : String) : St × String :=
           | .ok d' => ({ st with ds := st.ds.setIfInBounds k2 d' }, "ok")
           | .error e => (st, errStr e)
         | _, _, _ => (st, "bad-op")
+      | "keyfill", base :: names =>
+        match base.toInt?, names.mapM arrayOf with
+        | some base, some as =>
+          let ks' := (as.zipIdx).foldl (fun (ks : KeyArray → Option (List Int)) (ap : KeyArray × Nat) =>
+            fun g => if g = ap.1 then
+              some ((List.range (keyTable.kalloc ap.1 sz)).map fun (jn : Nat) => base + 1000 * ((ap.2 : Int) + 1) + (jn : Int))
+            else ks g) st.ks
+          ({ st with ks := ks' }, "ok")
+        | _, _ => (st, "bad-op")
+      | "keyput", idx :: name :: vs =>
+        match idx.toNat?, arrayOf name, vs.mapM String.toInt? with
+        | some idx, some a, some v =>
+          match st.ks a, rowSize sz a with
+          | some cur, some n =>
+            if idx < keyTable.nkey sz ∧ v.length = n ∧ idx * n + n ≤ cur.length then
+              let cur' := cur.take (idx * n) ++ v ++ cur.drop (idx * n + n)
+              ({ st with ks := fun g => if g = a then some cur' else st.ks g }, "ok")
+            else (st, "bad-op")
+          | _, _ => (st, "bad-op")
+        | _, _, _ => (st, "bad-op")
+      | "keydump", names =>
+        match names.mapM arrayOf with
+        | some as =>
+          match as.mapM (fun a => (st.ks a).map (fun v => a.name ++ ":" ++ joinInts v)) with
+          | some parts => (st, "|".intercalate parts)
+          | none => (st, "bad-op")
+        | none => (st, "bad-op")
+      | "setkey", [k, idx] =>
+        match slot? k >>= (fun k => st.ds[k]?), sig? idx, knownKeys st.ks with
+        | some d, some idx, some m =>
+          match setKeyframe keyTable sz m d idx with
+          | .ok m' => ({ st with ks := fun g => if (st.ks g).isSome then some (m' g) else none }, "ok")
+          | .error e => (st, kerrStr e)
+        | _, _, _ => (st, "bad-op")
+      | "loadkey", k :: idx :: base :: rest =>
+        match rest.span (· ≠ ";") with
+        | (pnames, ";" :: fnames) =>
+          match slot? k >>= (fun k => st.ds[k]?.map (k, ·)), sig? idx, base.toInt?, pnames.mapM fieldOf, fnames.mapM fieldOf,
+                knownKeys st.ks with
+          | some (k, d), some idx, some base, some pf, some ff, some m =>
+            if ¬ sameSet pf (keyTable.load.map (·.field)) ∨ ¬ StateField.all.all (ff.contains ·) then (st, "bad-op") else
+            -- the data `_resetData` leaves is outside the model: loaded fields do not depend on it
+            match resetDataKeyframe keyTable sz m d idx with
+            | .ok d' =>
+              let out := if 0 ≤ idx ∧ idx < keyTable.nkey sz then
+                  "|".intercalate (pf.map fun f => f.name ++ ":" ++ joinInts (d' f)) ++ ";rest=1"
+                else "reset"
+              let d'' := (ff.zipIdx).foldl (fun (d : D) (fp : StateField × Nat) => upd d fp.1 (fillVals sz base fp.2 fp.1)) d'
+              ({ st with ds := st.ds.setIfInBounds k d'' }, out)
+            | .error e => (st, kerrStr e)
+          | _, _, _, _, _, _ => (st, "bad-op")
+        | _ => (st, "bad-op")
       | _, _ => (st, "bad-op")
   | [] => (st, "bad-op")
 
